@@ -75,6 +75,7 @@ Init ==
                   /\ vec = Vec("get_digit", I(a), I(b), FilterRef("get_digit", I(a), I(b)))
             \/ \E b \in 1..4 : vec = Vec("get_digit", S(<<"a", "b", "c">>), I(b), S(<<"a", "b", "c">>))      \* what is no number is handed back
             \/ \E a \in 1..Len(Nums), p \in 1..Len(PlArgs) : vec = Vec("pluralize", Nums[a], PlArgs[p], FilterRef("pluralize", Nums[a], PlArgs[p]))
+            \/ \E x \in {1000, 1500, 500, 2000, 0, 0 - 1000, 1001}, p \in 1..Len(PlArgs) : vec = Vec("pluralize", Fix(x), PlArgs[p], FilterRef("pluralize", Fix(x), PlArgs[p]))
             \/ \E a \in 1..Len(Nums), p \in 1..Len(YnArgs) : vec = Vec("yesno", Nums[a], YnArgs[p], FilterRef("yesno", Nums[a], YnArgs[p])))
        [] Family = "float" -> (
             \/ \E n \in FixVals, a \in 1..Len(FfArgs) :
